@@ -1,8 +1,9 @@
 /-
   Properties/C07.lean — a task has at most one holder; stale holders are fenced; leases are what the
-  sweep respects.  Store level, both dialects.
+  sweep respects.  Store level, both dialects — and (last section) in every reachable state of the kernel model.
 -/
 import Resonate.Proofs.TaskInv
+import Resonate.Proofs.TaskRun
 import Resonate.Model.Coroutines
 namespace Resonate.C07
 open Resonate SqlSpec
@@ -170,6 +171,35 @@ theorem sweep_update_shape (t : Time) (r : TaskRow) :
       Cmd.updateTask { id := r.id, processId := none, state := 1, counter := r.counter + 1, attempt := 0, ttl := 0, expiresAt := 0, completedOn := none, currentStates := [r.state], currentCounter := r.counter }
      else
       Cmd.updateTask { id := r.id, processId := none, state := 16, counter := r.counter, attempt := r.attempt, ttl := 0, expiresAt := 0, completedOn := some r.timeout, currentStates := [r.state], currentCounter := r.counter }) := rfl
+
+/-! ### every run of the server -/
+
+/-- **Between ANY two states along ANY run** of the kernel model — any requests (of all 17 kinds, passing the front ends'
+    state validation), ticks, completion batches, store batches of any composition and order with injected failures,
+    router / sender outcomes, any queue / batch / pool sizes, shutdown, crashes and restarts — from a database whose task
+    states are legal: the task table has only moved forward (`TaskMono`).  Spelled out by the lemmas above: no task
+    disappears or changes identity (`task_persists`), counters never decrease (`counter_monotone`), a completed or
+    timed-out task never changes again (`finished_is_final`), and a task claimed under counter `c` is never again
+    claimable under `c` (`no_second_claim_with_same_counter`): a stale holder is fenced in every execution.
+    What carries it (Proofs/AllYieldsT.lean, Proofs/WInv.lean, Proofs/TaskRun.lean): every `UpdateTask` any of the 22
+    coroutines can yield is disciplined (`wfUpdateTask`) — for the lease sweep, which guards by the state it read,
+    because every task row a store result carries has a legal state, an invariant of the run itself. -/
+theorem fencing_every_run (env : Env) (db0 : Db) (h0 : LegalTasks db0) (cs1 cs2 : List Choice)
+    (h1 : ∀ c ∈ cs1, WInv.ChoiceOk LegalCpl c) (h2 : ∀ c ∈ cs2, WInv.ChoiceOk LegalCpl c) :
+    TaskMono ((Sys.boot env d (defs d) db0).run cs1).db ((Sys.boot env d (defs d) db0).run (cs1 ++ cs2)).db :=
+  task_discipline_between d env db0 h0 cs1 cs2 h1 h2
+
+/-- … and every stored task is, in every reachable state, in one of the five states the store writes -/
+theorem legal_states_every_run (env : Env) (db0 : Db) (h0 : LegalTasks db0) (cs : List Choice)
+    (h : ∀ c ∈ cs, WInv.ChoiceOk LegalCpl c) : LegalTasks ((Sys.boot env d (defs d) db0).run cs).db :=
+  (task_discipline_every_run d env db0 h0 cs h).db.1
+
+/-- the hypothesis on the run is satisfiable by a run that does something: a claim, ticks, a store batch, a transport outcome -/
+example : ∀ c ∈ [Choice.submit "r1" (.claimTask { id := "t", counter := 1, processId := "w", ttl := 5 }), .tick 1,
+    .execStore [(⟨"r1", 0⟩, .ok)], .tick 2, .complete ⟨"EnqueueTasks:1", 1⟩ (.sender true), .crash], WInv.ChoiceOk LegalCpl c := by
+  intro c hc
+  simp only [List.mem_cons, List.not_mem_nil, or_false] at hc
+  rcases hc with rfl | rfl | rfl | rfl | rfl | rfl <;> simp [WInv.ChoiceOk, Req.StateOk, LegalCpl]
 
 /-! ### non-vacuity -/
 def exTask : TaskRow := { id := "t", sortId := 1, processId := some "w", state := 4, rootPromiseId := "p", recv := "x", mesg := ⟨"invoke", "p", "p"⟩, timeout := 100, counter := 3, attempt := 0, ttl := 5, expiresAt := 20, createdOn := some 0, completedOn := none }
